@@ -2,5 +2,8 @@ SPECIFICATION Spec
 CONSTANTS
   GClasses = {1, 3, 254, 255}
   Pairs = TRUE
+  TlvMaxItems = 3
+  TlvLens = {0, 1, 5}
+  TlvDeltas <- MC_TlvDeltas
 INVARIANT Emit
 CHECK_DEADLOCK FALSE
